@@ -136,6 +136,34 @@ def xform(sk, *xs):
     return True
 
 
+def flatten_twice(sk, *xs):
+    """flattening (or merging) a rank that is itself the product of an earlier flatten: the intermediate tensor is an operand like any other
+    (its rank ids, shape and content stay as they were and its own inverse still restores the original), the final result holds every point"""
+    tree, S, second = sk["tree"], sk["S"], sk["second"]
+    f, pos, _ = build_tree(tree, xs)
+    t = Tensor.fromFiber(["A", "B", "C"], f, shape=[S] * 3)
+    c0 = content(t.getRoot())
+    f1 = t.flattenRanks(depth=0, levels=1)
+    ids1 = [list(i) if isinstance(i, list) else i for i in f1.getRankIds()]
+    sh1 = f1.getShape()
+    c1 = content(f1.getRoot())
+    f2 = f1.flattenRanks(depth=0, levels=1) if second == "flatten" else f1.mergeRanks(depth=0, levels=1)
+    if [list(i) if isinstance(i, list) else i for i in f1.getRankIds()] != ids1:
+        return fail("flattening an already flattened tensor changed the rank ids of its operand: %r -> %r" % (ids1, f1.getRankIds()))
+    if f1.getShape() != sh1 or content(f1.getRoot()) != c1:
+        return fail("flattening an already flattened tensor changed its operand")
+    if ids1 != [["A", "B"], "C"]:
+        return fail("first flatten reports rank ids %r" % (ids1,))
+    back = f1.unflattenRanks(depth=0, levels=1)
+    if back.getRankIds() != ["A", "B", "C"] or not (back == t) or content(back.getRoot()) != c0:
+        return fail("the intermediate tensor no longer unflattens to the original")
+    if len(content(f2.getRoot())) != len(c0) and second == "flatten":
+        return fail("the second flatten lost or duplicated points")
+    if wf(f2.getRoot()) < 0 or not mirror(f2) or not mirror(f1):
+        return fail("result not a well-formed tensor")
+    return True
+
+
 def _mk(tree, name, opt, box=None, S=4, noshape=False, fixed=None, canon=False):
     if box:
         ps = names("v", box_size(box) - len(fixed or []))
@@ -193,6 +221,11 @@ def obligations(tier):
     for tree in t3:
         for name, opt in xf3(tier):
             obs.append(_mk(tree, name, opt))
+    for tree in ([[[1]]] if q else [[[1]], [[1, 1]], [[1], [1]]]):
+        for second in ("flatten", "merge"):
+            ps = names("x", tree_params(tree))
+            pre, _, cn = tree_pre(tree, ps)
+            obs.append(Ob("flatten-twice/%s/%s" % (str(tree).replace(" ", ""), second), "flatten_twice", dict(tree=tree, S=4, second=second), ps, pre + bound_pre(cn, 0, 4)))
     if q:
         # two fibers at the transformed depth, one of them empty and one not
         for tree in ([[1], []], [[], [1]]):
